@@ -8,7 +8,7 @@ from more_executors._impl.common import (
     copy_future_exception,
     try_set_result,
 )
-from .base import f_return, chain_cancel, weak_callback
+from .base import f_return, chain_cancel, notify_cancel, weak_callback
 from .check import ensure_futures
 from ..metrics import track_future
 
@@ -37,6 +37,7 @@ class Zipper(object):
     def __init__(self, fs):
         self.fs = list(fs)
         self.out = Future()
+        notify_cancel(self.out)
         self.done = False
         self.lock = Lock()
         self.count_remaining = len(self.fs)
